@@ -10,7 +10,8 @@ def declare(E):
     E.auto_opaque = True
     E.inline("paramiko.util.b", "paramiko.util.u")
     # ---- the list of lines of the file: known only through len() and indexing (IndexError outside 0..len-1 / -len..-1)
-    E.contract("File.readlines", argnames=["self"], returns="opaque:Lines")
+    # (a text-mode file object over bytes that are not text raises UnicodeDecodeError from the read)
+    E.contract("File.readlines", argnames=["self"], returns="opaque:Lines", raises={"UnicodeDecodeError": "True"})
     E.contract("Lines.__len__", argnames=["self"], returns="nat", ensures=["result == fn('nlines', 'int', opaque_id(self))"])
     E.contract("Lines.__getitem__", argnames=["self", "i"], returns="str",
                requires={"line_index_in_range": "-fn('nlines', 'int', opaque_id(self)) <= i and i < fn('nlines', 'int', opaque_id(self))"})
@@ -106,6 +107,17 @@ def declare_ed25519(E):
                params={"self": "obj:Ed25519Key", "filename": "opt[str]", "file_obj": "opt[opaque:File]", "data": "bytes",
                        "password": "opt[str]", "signing_key": "opt[opaque:NaclSigningKey]"},
                returns="none", raises=dict(ALLOWED), modifies=[])
+    # the statement that reads the file (the whole if / elif chain over msg, filename, file_obj), for the file-loading cases:
+    # Ed25519Key opens the file itself in text mode, so a byte that is not text raises UnicodeDecodeError inside the read
+    E.contract("builtins.open", argnames=["file", "mode"], returns="opaque:TextFile", raises={"OSError": "True"})
+    E.contract("TextFile.__enter__", argnames=["self"], returns="expr:self")
+    E.contract("TextFile.__exit__", argnames=["self", "a", "b", "c"], returns="none")
+    E.contract(ED + "__init__::part[read-key-file]",
+               fragment=dict(first="if msg is not None", last="if msg is not None"),
+               params={"self": "obj:Ed25519Key", "msg": "opt[obj:Message]", "filename": "opt[str]", "file_obj": "opt[opaque:TextFile]",
+                       "password": "opt[str]", "verifying_key": "opt[opaque:NaclVerifyKey]"},
+               requires={"a_key_file_is_being_loaded": "isnone(msg)"},
+               returns="none", raises=dict(ALLOWED, OSError="True"), modifies=[])
 
 
 def declare_decode(E):
@@ -163,3 +175,46 @@ def own_read_file():
     return {"+replace": True, "params": {"tag": "str", "filename": "str", "password": "opt[str]"}, "returns": "tuple[int,bytes]",
             "raises": {"SSHException": "True", "PasswordRequiredException": "True", "OSError": "True"}, "modifies": [],
             "+contracts": cs, "+engine": {"auto_opaque": True}}
+
+
+def own_pem_decrypt():
+    """the decryption part of PKey._read_private_key_pem (statement range from the cipher-table lookups to the unpadding) in
+    its own environment: the salt string comes from the file's DEK-Info header and the ciphertext from its body, so neither
+    need be well-formed.  Library behaviour assumed from probing: unhexlify raises binascii.Error (a ValueError) for odd
+    length / non-hex digits; Cipher(alg(key), mode(salt)) raises ValueError for a salt of the wrong size; the CBC decryptor's
+    finalize raises ValueError when the data was not a whole number of blocks; the PKCS7 unpadder raises ValueError."""
+    P = "paramiko.pkey.PKey."
+    VE = {"ValueError": "True"}
+
+    def entry(I, env, sf):
+        from pyvc import ropes
+        from pyvc.values import VOpaque
+        k = ropes.conc_value(env["k"])
+        if k == "keysize":
+            return I.fresh_of_type("nat", "cipher_table.keysize")
+        return VOpaque({"cipher": "CipherAlg", "mode": "CipherMode"}.get(k, "CipherTableValue"), I.st.fresh_int("cipher_table_entry"))
+    cs = {
+        "CipherTable.__getitem__": dict(argnames=["self", "k"], returns="opaque:CipherEntry"),
+        "CipherEntry.__getitem__": dict(argnames=["self", "k"], returns=entry),
+        "paramiko.pkey.unhexlify": dict(argnames=["s"], returns="bytes", raises={"binascii.Error": "True"}),
+        "binascii.unhexlify": dict(argnames=["s"], returns="bytes", raises={"binascii.Error": "True"}),
+        "paramiko.util.generate_key_bytes": dict(argnames=["hash_alg", "salt", "key", "nbytes"], returns="bytes", modifies=[]),
+        "cryptography.hazmat.primitives.ciphers.base.Cipher": dict(constructor=True, argnames=["algorithm", "mode", "backend"],
+                                                                    returns="opaque:CipherObj", raises=dict(VE)),
+        "CipherObj.decryptor": dict(argnames=["self"], returns="opaque:KeyDecryptor"),
+        "KeyDecryptor.update": dict(argnames=["self", "data"], returns="bytes", raises=dict(VE)),
+        "KeyDecryptor.finalize": dict(argnames=["self"], returns="bytes", raises=dict(VE)),
+        "cryptography.hazmat.primitives.padding.PKCS7": dict(constructor=True, argnames=["block_size"], returns="opaque:Padding"),
+        "Padding.unpadder": dict(argnames=["self"], returns="opaque:Unpadder"),
+        "Unpadder.update": dict(argnames=["self", "data"], returns="bytes", raises=dict(VE)),
+        "Unpadder.finalize": dict(argnames=["self"], returns="bytes", raises=dict(VE)),
+    }
+    return {"+replace": True,
+            "fragment": dict(first='cipher = self._CIPHER_TABLE[encryption_type]["cipher"]', last="return unpadder"),
+            "params": {"self": "obj:paramiko.pkey.PKey", "encryption_type": "str", "saltstr": "str", "password": "str", "data": "bytes"},
+            "returns": "bytes", "raises": {"SSHException": "True"}, "modifies": [],
+            "+contracts": cs, "+fields": {"paramiko.pkey.PKey": {"_CIPHER_TABLE": "opaque:CipherTable"}},
+            "+engine": {"auto_opaque": True, "opaque_contracts": {
+                "CipherAlg": dict(argnames=["self", "key"], returns="opaque:AlgObj", raises=dict(VE)),
+                "CipherMode": dict(argnames=["self", "iv"], returns="opaque:ModeObj", raises=dict(VE)),
+                "lib:PKCS7": dict(argnames=["self", "block_size"], returns="opaque:Padding")}}}
